@@ -22,6 +22,7 @@ one mutants/revert-fix-fbb24e8.patch C03
 one mutants/revert-fix-45889c1.patch C08
 one mutants/revert-fix-1312403.patch C08
 one mutants/revert-fix-819a78c.patch C18
+one mutants/revert-fix-87dc739.patch C20
 one mutants/revert-fix-7215c77.patch C13
 one mutants/revert-fix-ac70a5d.patch C13
 one mutants/revert-fix-5c51e9f.patch C14
